@@ -26,3 +26,22 @@ Proof.
   exists ex_env, ex_src, ex_tgt2. eexists. split; [exact ex_src_ok|]. split; [apply ex_same_hardware; now right|].
   split; [vm_compute; reflexivity|]. intro D. specialize (D "s1.x"). vm_compute in D. exact D.
 Qed.
+
+(* /devices: what GET answers for a device whose polling and listening were switched on by two separate PATCH requests (the
+   request-level test in patch_slave_device looks at one request only) is refused by PUT /devices: the premise
+   [slave_entry_ok] of C20_slaves_roundtrip_total is not something the unrepaired hub guarantees.  Replayed on the real code:
+   corpus/C20/slave-polling-and-listening.json; repair: fixes/C20-slave-listening-and-polling.diff *)
+From QT Require Import C20.AcceptThm.
+Lemma C20_slave_polling_and_listening_backup_refused :
+  exists s1 s2, (forall e, In e (sl_devices s1) -> slave_json e = e)
+    /\ endpoints_distinct (sl_devices s1) = true
+    /\ snd (put_slave_devices (get_slave_devices s1) s2) = Some (0, "listening-and-polling")
+    /\ sl_devices (fst (put_slave_devices (get_slave_devices s1) s2)) = [].            (* and no device is left *)
+Proof.
+  exists {| sl_devices := [slave_json [("name", JStr "s1"); ("scheme", JStr "http"); ("host", JStr "10.0.0.1"); ("port", JNum 320);
+                                       ("path", JStr "/"); ("admin_password_hash", JStr empty_hash); ("poll_interval", JNum 40);
+                                       ("listen_enabled", JBool true); ("last_sync", JNum (-4)); ("attrs", JObj [])]];
+            sl_updating := true; sl_events := true |},
+         {| sl_devices := []; sl_updating := true; sl_events := true |}.
+  split; [intros e [<-|[]]; reflexivity|]. vm_compute. repeat split.
+Qed.
